@@ -425,7 +425,44 @@ type world struct {
 	settle  time.Duration
 }
 
-func wname(n int) string { return fmt.Sprintf("w%d", n) }
+// Concrete worker names. The scripts, the simulator and the Coq model speak of abstract name ids 0,1,2,...; which string a name
+// id stands for is a parameter of the case (the model is indifferent to it: names are only compared for equality). Besides
+// the ordinary short names the palettes hold the extreme inputs of a string-keyed registry: the EMPTY name, names that differ
+// only in case or in a leading/trailing space, names that are prefixes of one another, very long names (1000 bytes) that
+// differ only in the last byte / in length / in case. All names of one palette are pairwise distinct Go strings.
+var longName = strings.Repeat("n", 1000)
+var namePalettes = [][]string{
+	{"w0", "w1", "w2", "w3", "w4", "w5"},
+	{"", "w", "W", "w ", " w", " "},
+	{"a", "ab", "", "abc", "abc ", "ABC"},
+	{longName, "", longName + "x", longName[:999], strings.ToUpper(longName), longName + " "},
+}
+
+// palette of the scenario that is running (one scenario at a time per process; children get it in their request)
+var namePal int
+var paletteTag = []string{"ordinary", "empty/case/space", "prefixes+empty", "1000-byte-names+empty"}
+
+func setNames(k int) { namePal = k % len(namePalettes) }
+
+func wname(n int) string {
+	if p := namePalettes[namePal]; n < len(p) {
+		return p[n]
+	}
+	return fmt.Sprintf("w%d", n)
+}
+
+// shownNames: the palette in use, for the failing input (long names abbreviated)
+func shownNames() []string {
+	var out []string
+	for _, n := range namePalettes[namePal] {
+		if len(n) > 40 {
+			out = append(out, fmt.Sprintf("%q+(%d more bytes, last %q)", n[:4], len(n)-4, n[len(n)-1:]))
+		} else {
+			out = append(out, fmt.Sprintf("%q", n))
+		}
+	}
+	return out
+}
 
 func errCode(err error) int {
 	switch {
@@ -791,12 +828,12 @@ func quiescentState(d daemon.Daemon, running, stopped bool, live []string, ord m
 	a, b := append([]string{}, got...), append([]string{}, live...)
 	sort.Strings(a)
 	sort.Strings(b)
-	if fmt.Sprint(a) != fmt.Sprint(b) {
-		return fmt.Sprintf("GetRunningBackgroundWorkers() = %v, running bodies %v", got, b)
+	if fmt.Sprintf("%q", a) != fmt.Sprintf("%q", b) {
+		return fmt.Sprintf("GetRunningBackgroundWorkers() = %.60q, running bodies %.60q", got, b)
 	}
 	for i := 1; i < len(got); i++ {
 		if ord[got[i-1]] > ord[got[i]] {
-			return fmt.Sprintf("GetRunningBackgroundWorkers() = %v is not sorted by order (%d before %d)", got, ord[got[i-1]], ord[got[i]])
+			return fmt.Sprintf("GetRunningBackgroundWorkers() = %.60q is not sorted by order (%d before %d)", got, ord[got[i-1]], ord[got[i]])
 		}
 	}
 	return ""
@@ -811,6 +848,7 @@ type childReq struct {
 	Pool   []call `json:"pool,omitempty"`
 	Ops    []op   `json:"ops,omitempty"`
 	Seed   uint64 `json:"seed,omitempty"`
+	Names  int    `json:"names,omitempty"` // index into namePalettes
 }
 type childResp struct {
 	Seen     []obs    `json:"seen,omitempty"`
@@ -833,6 +871,7 @@ func childMain() {
 		vx.Die("child: %v", err)
 	}
 	daemon.VerifYield = hookFn
+	setNames(req.Names)
 	var d daemon.Daemon = daemon.New()
 	if req.API == "pkg" {
 		d = pkgAPI{}
@@ -1483,19 +1522,23 @@ func main() {
 	// while the shutdown order itself was kept: reported after the order failures, at most 2 per API, and not counted
 	// against the cap (so it cannot hide an order violation found later)
 	roFails := map[string][]any{}
-	childNo := 0
+	childNo, caseNo := 0, 0
 	doScript := func(tag, api string, pool []call, ops []op) {
 		var seen, want []obs
 		var timedOut bool
 		var why string
-		desc := map[string]any{"mode": "script", "tag": tag, "api": api, "pool": pool, "ops": ops}
+		// concrete names of this case: the palettes in rotation (not drawn from the generator's random stream)
+		caseNo++
+		setNames(caseNo)
+		desc := map[string]any{"mode": "script", "tag": tag, "api": api, "pool": pool, "ops": ops, "names": shownNames(), "name_palette": namePal}
+		st.Count(fmt.Sprintf("names:script-palette-%d(%s)", namePal, paletteTag[namePal]))
 		if api == "instance" {
 			seen, want, timedOut, why = runScript(daemon.New(), pool, ops, 150*time.Microsecond)
 		} else {
 			childNo++
 			logger := childNo%3 == 0
 			desc["debug_logger"] = logger
-			resp, err := runChild(childReq{Mode: "script", API: api, Logger: logger, Pool: pool, Ops: ops})
+			resp, err := runChild(childReq{Mode: "script", API: api, Logger: logger, Pool: pool, Ops: ops, Names: namePal})
 			if err != nil {
 				failures[api]++
 				desc["why"] = err.Error()
@@ -1631,7 +1674,8 @@ func main() {
 	}
 	doLog := func(mode, api string, desc freeDesc, evs []event, hung bool, post string, runMatters bool) {
 		h, rn, why := histOK(evs)
-		idx := map[string]any{"mode": mode, "api": api, "events": evs}
+		idx := map[string]any{"mode": mode, "api": api, "events": evs, "names": shownNames(), "name_palette": namePal}
+		st.Count(fmt.Sprintf("names:%s-palette-%d(%s)", mode, namePal, paletteTag[namePal]))
 		if mode == "free" {
 			idx["pool"] = desc.Pool
 		}
@@ -1681,16 +1725,20 @@ func main() {
 	}
 	childLog := func(mode string, seed uint64) {
 		childNo++
-		req := childReq{Mode: mode, API: "pkg", Logger: childNo%3 == 0, Seed: seed}
+		caseNo++
+		setNames(caseNo)
+		req := childReq{Mode: mode, API: "pkg", Logger: childNo%3 == 0, Seed: seed, Names: namePal}
 		resp, err := runChild(req)
 		if err != nil {
 			failures["pkg"]++
-			st.Fail(map[string]any{"mode": mode, "api": "pkg", "child_seed": seed, "why": err.Error()})
+			st.Fail(map[string]any{"mode": mode, "api": "pkg", "child_seed": seed, "why": err.Error(), "names": shownNames(), "name_palette": namePal})
 			return
 		}
 		doLog(mode, "pkg", resp.Desc, resp.Events, resp.Hung, resp.Why, mode == "free")
 	}
 	for i := 0; i < *nFree/4 && failures["instance"] < 4; i++ {
+		caseNo++
+		setNames(caseNo)
 		evs, hung := reregRun(rng.Fork(), daemon.New())
 		doLog("rereg", "instance", freeDesc{}, evs, hung, "", false)
 	}
@@ -1698,6 +1746,8 @@ func main() {
 		childLog("rereg", rng.U64())
 	}
 	for i := 0; i < *nFree && failures["instance"] < 4; i++ {
+		caseNo++
+		setNames(caseNo)
 		desc, evs, hung, post := freeRun(rng.Fork(), daemon.New())
 		doLog("free", "instance", desc, evs, hung, post, true)
 	}
